@@ -95,6 +95,21 @@ N = {
  "sd4-C17-m1": ("resetReadDeadline moved to the callers of nextMessage, forgotten in tryReconnect", "reconnect, black hole before any frame arrives on the new link, client keeps sending", "needed the 'black hole right after a reconnect' variant in C17"),
  "sd4-C17-m2": ("final response written with w() instead of withLazyWriter: encoding under writeLk", "a result whose encoding takes longer than the client timeout, server pings on", "needed slow-to-encode results in C17"),
  "sd4-C20-m1": ("parameter encoding moved into the retry loop: the reader param is uploaded again", "retry-tagged reader call issued while the connection is down", "needed a retry-outage family in C20"),
+ "se5-C02-m1": ("a request whose write fails is deleted from the in-flight map (so nobody ever answers it)", "write failing before the reader reports the fault: cut/reset inside a request being written, half-dead link", "caught as found (C03/C05 hang oracles; the same change was proposed independently for C05)"),
+ "se5-C02-m2": ("handleCall writes the response with nextWriter instead of nextWriterGen: reverse-call responses cross a reconnect", "reconnecting client with a reverse handler that outlives its connection, same id in flight on the new one", "caught as found (C16 reverse-identity)"),
+ "se5-C03-m1": ("'websocket routine exiting' wrapped as RPCConnectionError + retry-tagged calls retry on it: tagged call never returns on a dead client", "retry tag + closed / no-reconnect client", "caught as found (C03, C05, C18)"),
+ "se5-C03-m2": ("tryReconnect takes errLk before writeLk: lock-order inversion against the request branch of the connection loop", "a call reaching the connection loop in the same instant the redial completes", "needed calls racing the *end* of the reconnect window (phase-5 ops triggered by the upgrade response of the redial, C03/C05)"),
+ "se5-C05-m1": ("read deadline set only after the first inbound message of a connection", "stall right after a reconnect, before any frame, with application traffic resetting the idle timer", "caught as found (C17 black hole right after a reconnect)"),
+ "se5-C08-m1": ("output-channel id counter reset on reconnect: ids of still-live channels are reused", "reverse subscription across a reconnect with the old producer alive", "caught as found (C16 reverse-subscription identity)"),
+ "se5-C08-m2": ("a successful request write renews the read deadline", "silent peer while the client keeps writing", "caught as found (C17 silent-peer bound)"),
+ "se5-C14-m1": ("channel registration reply skipped when the call context is cancelled - after the message writer was opened: empty message on the wire, call never answered", "xrpc.cancel between handler start and channel registration", "caught as found (C14 wire oracle)"),
+ "se5-C14-m2": ("lazyWriter gives the connection writer back after 10 s although the handler is still writing: torn response, concurrent write panic", "multi-buffer response to a peer that stops reading for more than 10 s", "needed write stalls of 14 s and 45 s in C14 (had 3 s at most)"),
+ "se5-C15-m1": ("empty / whitespace-only message returns from readFrame before re-arming the reader", "peer sends an empty text message, later the connection ends", "caught as found (C10 same-connection-keeps-answering)"),
+ "se5-C15-m2": ("stopPings waits for the ping goroutine, which may be queued on writeLk behind a blocked write", "server pings + response blocked on a non-reading peer + half-close", "caught as found (C15 handlers-cancelled)"),
+ "se5-C16-m1": ("requests channel buffered (8) + early exiting check: a request buffered when the routine exits belongs to nobody", "many concurrent reverse calls while the connection is lost", "caught as found (C16 reverse-call-fails-not-blocks)"),
+ "se5-C16-m2": ("retry-tagged methods keep retrying on a Go error from sendRequest while the context is live", "retry-tagged reverse proxy method called with a context that is not the handler's, client gone", "needed a retry-tagged reverse method and handlers that call back with a detached context in C16"),
+ "se5-C18-m1": ("a notification whose write fails is answered twice: the second send blocks the connection loop for ever", "write-side failure + caller context cancelled (xrpc.cancel notification) + close", "caught as found (C18 closer-returns)"),
+ "se5-C18-m2": ("client-side channel buffer bounded at 8192 values; the sink then blocks under the channel-handler lock", "subscriber stalled with > 8200 pending values, then close", "needed the flood family in C18 (9000 values to a stalled subscriber, then close; 1 run in 2000)"),
  "sd4-C20-m2": ("server defaults hoisted into a package variable: all servers share one paramDecoders map", ">= 2 reader-enabled servers in one process", "needed a second reader-enabled server in C20"),
 }
 
